@@ -197,16 +197,27 @@ impl Body for KvBody {
     }
 
     fn launch(&self, dir: &Path) -> Launched {
-        let db = Database::builder(dir).worker_threads_unchecked(self.workers).open().expect("open");
-        let mut opts = KeyspaceCreateOptions::default();
-        if self.tiny {
-            opts = opts.max_memtable_size(0);
-        }
-        let ks = db.keyspace("x", || opts).expect("keyspace");
+        // "[reopened]": the clients run on a recovered database (prepared without workers, closed, opened again)
+        let reopened = self.name.contains("[reopened]");
+        let mk_opts = || {
+            let mut opts = KeyspaceCreateOptions::default();
+            if self.tiny {
+                opts = opts.max_memtable_size(0);
+            }
+            opts
+        };
+        let mut db = Database::builder(dir).worker_threads_unchecked(if reopened { 0 } else { self.workers }).open().expect("open");
+        let mut ks = db.keyspace("x", mk_opts).expect("keyspace");
         let mut initial = BTreeMap::new();
         for (k, v) in &self.initial {
             ks.insert(*k, *v).expect("prep insert");
             initial.insert((*k).to_string(), (*v).to_string());
+        }
+        if reopened {
+            drop(ks);
+            drop(db);
+            db = Database::builder(dir).worker_threads_unchecked(self.workers).open().expect("reopen");
+            ks = db.keyspace("x", mk_opts).expect("keyspace");
         }
         for i in 0..self.pre_l0 {
             ks.insert("p", format!("l{i}")).expect("prep insert");
@@ -304,6 +315,7 @@ pub fn bodies(tier: &str) -> Vec<BodySpec> {
         b(KvBody { name: "tiny-memtable+worker", workers: 1, tiny: true, presealed: 0, pre_l0: 0, jrot: false, initial: vec![], threads: vec![vec![Ins("a", "1"), Ins("b", "1")], vec![Ins("a", "2"), Get("b")], vec![Get("a"), Scan]] }, if q { 1 } else { 2 }, if q { 3.0 } else { 300.0 }),
         b(KvBody { name: "write-stall(4 sealed)+worker", workers: 1, tiny: false, presealed: 4, pre_l0: 0, jrot: false, initial: vec![], threads: vec![vec![Ins("a", "9"), Get("a")], vec![Get("p")]] }, if q { 1 } else { 2 }, if q { 5.0 } else { 200.0 }),
     ];
+    v.push(b(KvBody { name: "ins-rem vs readers [reopened]", workers: 0, tiny: false, presealed: 0, pre_l0: 0, jrot: false, initial: vec![("a", "0")], threads: vec![vec![Ins("a", "1"), Rem("a")], vec![Get("a"), Scan], vec![Ins("b", "2"), SizeOf("a")]] }, 2, if q { 3.0 } else { 200.0 }));
     v.push(b(KvBody { name: "write-halt(30 L0 runs)+worker must compact [focus:write-path]", workers: 1, tiny: false, presealed: 0, pre_l0: 30, jrot: false, initial: vec![], threads: vec![vec![Ins("a", "9"), Get("a")]] }, if q { 1 } else { 2 }, if q { 5.0 } else { 120.0 }));
     v.push(b(KvBody { name: "tiny-memtable+worker [focus:write-path]", workers: 1, tiny: true, presealed: 0, pre_l0: 0, jrot: false, initial: vec![], threads: vec![vec![Ins("a", "1"), Ins("b", "1")], vec![Ins("a", "2"), Get("b")], vec![Get("a"), Scan]] }, 2, if q { 6.0 } else { 300.0 }));
     {
